@@ -226,8 +226,11 @@ class MTSPEnv(RL4COEnvBase):
 
         # With distance, same as TSP
         elif self.cost_type == "sum":
+            # Sum of all sub-tours: closed walk starting and ending at the depot (first node)
             locs = td["locs"]
-            locs_ordered = locs.gather(1, actions.unsqueeze(-1).expand_as(locs))
+            locs_ordered = torch.cat(
+                [locs[..., 0:1, :], gather_by_index(locs, actions)], dim=1
+            )
             return -get_tour_length(locs_ordered)
 
         else:
